@@ -9,7 +9,14 @@ one() {
   if ! git -C /repo apply --check "/verif/seeded/$n/patch.diff" 2>/dev/null; then
     echo "$n NOAPPLY (patch no longer applies to HEAD $(git -C /repo rev-parse --short HEAD))"; return
   fi
-  echo "$n $(/verif/tools/trymutant_alt.sh /verif/seeded/$n/patch.diff $id 2>&1 | tail -1 | cut -c1-300)"
+  # the property's own check first; if it is silent, the other checks meta.json names as detecting the change
+  r=$(VERIF_BUDGET_S=${VERIF_BUDGET_S:-300} /verif/tools/trymutant_alt.sh /verif/seeded/$n/patch.diff $id 2>&1 | tail -1 | cut -c1-300)
+  case "$r" in DETECTED*) echo "$n $r"; return;; esac
+  for other in $(python3 -c "import json,re;print(' '.join(k for k in json.load(open('/verif/seeded/$n/meta.json')).get('detected_by',{}) if re.fullmatch(r'C\\d\\d',k) and k!='$id'))" 2>/dev/null); do
+    r2=$(VERIF_BUDGET_S=${VERIF_BUDGET_S:-300} /verif/tools/trymutant_alt.sh /verif/seeded/$n/patch.diff $other 2>&1 | tail -1 | cut -c1-300)
+    case "$r2" in DETECTED*) echo "$n $r2 (by $other; $id silent)"; return;; esac
+  done
+  echo "$n $r"
 }
 export -f one
 printf '%s\n' "${names[@]}" | xargs -P 4 -I{} bash -c 'one {}' > seeded/RESULTS.txt.new
